@@ -333,10 +333,31 @@ def build_graph_world(g, cache=True):
     return w, lines, results
 
 
+class _Hang(Exception):
+    pass
+
+
+def _with_alarm(seconds, fn):
+    """Run fn() under a SIGALRM watchdog (the closures can fail to terminate for graphs of the D7 class)."""
+    import signal
+
+    def on_alarm(signum, frame):
+        raise _Hang()
+    old = signal.signal(signal.SIGALRM, on_alarm)
+    signal.alarm(seconds)
+    try:
+        return fn()
+    finally:
+        signal.alarm(0)
+        signal.signal(signal.SIGALRM, old)
+
+
 def cycle_result(w):
     try:
-        w.ensure_no_dataflow_cycles()
+        _with_alarm(5, w.ensure_no_dataflow_cycles)
         return "ok", None
+    except _Hang:
+        return "hang", None
     except ScenarioError as e:
         import re
         path = [int(x) for x in re.findall(r"sid='S(\d+)'", str(e))]
@@ -347,9 +368,11 @@ def cycle_result(w):
 
 def anc_rows(w):
     try:
-        w.cache_triggering_ancestors()
+        _with_alarm(5, w.cache_triggering_ancestors)
     except AssertionError:
         return "AssertionError"
+    except _Hang:
+        return "hang"
     rows = []
     for sid, sim in sorted(w.sims.items(), key=lambda kv: int(kv[0][1:])):
         items = sorted((int(k.sid[1:]), v) for k, v in sim.triggering_ancestors.items())
@@ -373,8 +396,8 @@ def nonuniform_graph(g):
     hi = [[0] * n for _ in range(n)]
     for c in g["conns"]:
         cut = _common_len(pl[c["src"]], pl[c["dst"]]) + 1
-        if "weak" in c["kind"].split("+") and cut == 1:
-            continue
+        if "weak" in c["kind"].split("+") and cut == 1 and "async" not in c["kind"].split("+"):
+            continue            # rejected by connect; with async_requests the async part of the call is still registered
         a, b = c["src"], c["dst"]
         lo[a][b] = min(lo[a][b], cut)
         hi[a][b] = max(hi[a][b], cut)
